@@ -48,7 +48,9 @@ Ctxs == {"plain", "tofunc", "pmeth", "tometh", "decl", "pmethTF"}   \* pmethTF: 
 \* chainLM:  d.TT{}.TTM() - a literal of the type TT and its @testonly method TTM in one expression; TTM exists only when ann.meth
 \*           (an un-annotated method on TT in a non-test file would itself be a use of TT)
 \* elidedTT: []d.TT{{X: n}} - the element literal has no type of its own in the source
-Uses == {"callF", "callM", "callMvar", "callHM", "litTG", "chainFM", "chainLM", "callPF", "callPM", "shadow", "callFlit",
+\* callLower:   tfLower(n) - an unexported @testonly function (iff ann.func) declared before TF, used inside its own package
+\* callMpkgvar: `d := d.S{}; d.TM(n)` - the receiver is a local variable that is called like the import
+Uses == {"callF", "callM", "callMvar", "callHM", "litTG", "chainFM", "chainLM", "callPF", "callPM", "shadow", "callFlit", "callLower", "callMpkgvar",
          "elidedTT", "litTT", "varTT", "varPtrTT", "fieldTT", "paramTT", "resultTT", "litTT2", "litOTT"}
 TypeUses == {"elidedTT", "litTT", "varTT", "varPtrTT", "fieldTT", "paramTT", "resultTT", "litTT2", "litOTT"}
 IsTypeUse(u) == u \in TypeUses \/ u \in {"callFlit", "chainLM"}
@@ -65,6 +67,8 @@ Valid(c, pkg) ==
   /\ (c.use = "shadow" => pkg = "d")
   /\ (c.ctx = "pmethTF" => pkg = "d" /\ c.use \notin {"fieldTT", "paramTT", "resultTT", "shadow"})
   /\ (c.use = "litOTT" => pkg = "u")
+  /\ (c.use = "callLower" => pkg = "d")
+  /\ (c.use = "callMpkgvar" => pkg = "u" /\ c.ctx \in {"plain", "tofunc"})
 
 \* the defined type a use refers to, as <<package, name>>
 TypeOf(u) == CASE u = "litTT2" -> <<"d", "TT2">> [] u = "litOTT" -> <<"o", "TT">> [] u = "litTG" -> <<"d", "TG">> [] OTHER -> <<"d", "TT">>
@@ -73,8 +77,8 @@ InTestCtx(f, c) == f.test \/ c.ctx \in {"tofunc", "tometh"}
 
 \* candidate code of a use, before the once-per-file rule
 Cands(c, ann) ==
-  (IF c.use \in {"callF", "callFlit", "chainFM"} /\ ann.func THEN {"TONL02"} ELSE {})
-  \cup (IF c.use \in {"callM", "callMvar", "callHM", "chainFM", "chainLM"} /\ ann.meth THEN {"TONL03"} ELSE {})
+  (IF c.use \in {"callF", "callFlit", "chainFM", "callLower"} /\ ann.func THEN {"TONL02"} ELSE {})
+  \cup (IF c.use \in {"callM", "callMvar", "callHM", "chainFM", "chainLM", "callMpkgvar"} /\ ann.meth THEN {"TONL03"} ELSE {})
   \cup (IF (c.use \in TypeUses \/ c.use \in {"callFlit", "chainLM"}) /\ (ann.type \/ c.use = "litOTT") THEN {"TONL01"} ELSE {})   \* o.TT is always annotated
 
 (***************************************************************************)
@@ -95,7 +99,7 @@ L1(p) == {<<k[1], k[2], code>> : k \in Keys(p), code \in {"TONL01", "TONL02", "T
 (***************************************************************************)
 (* Program spaces                                                          *)
 (***************************************************************************)
-SeqUses == {"elidedTT", "litTT", "varTT", "litTT2", "litOTT", "paramTT", "callF", "callMvar", "callFlit", "litTG", "chainLM"}
+SeqUses == {"elidedTT", "litTT", "varTT", "litTT2", "litOTT", "paramTT", "callF", "callMvar", "callFlit", "litTG", "chainLM", "callMpkgvar"}
 SeqConts(pkg) == {c \in {Cont(x, u) : x \in {"plain", "tofunc"}, u \in SeqUses} : Valid(c, pkg)}
 
 InitProg ==
@@ -110,6 +114,11 @@ InitProg ==
           /\ (sp \in {"ptralias", "ptrchain", "ptrofalias"} => u \in {"varPtrTT", "resultTT"})
           /\ (sp = "paren" => u \notin {"litTT"})
           /\ prog = [ann |-> ann, pkg |-> pkg, files |-> <<[test |-> FALSE, conts |-> <<ContS(x, u, sp)>>]>>]
+  \/ /\ Mode = "spell"     \* ... and after a directly spelled use in the same file: still one TONL01 per file and type
+     /\ \E ann \in {a \in Anns : a.type}, pkg \in {"d", "u"}, u \in {"varTT", "paramTT", "litTT"}, sp \in {"alias", "alias3", "chain"}, first \in BOOLEAN :
+          /\ (sp = "alias3" => pkg = "u")
+          /\ prog = [ann |-> ann, pkg |-> pkg, files |-> <<[test |-> FALSE, conts |-> IF first THEN <<ContS("plain", u, sp), Cont("plain", "varTT")>>
+                                                                                     ELSE <<Cont("plain", "varTT"), ContS("plain", u, sp)>>]>>]
   \/ /\ Mode = "seq2"
      /\ \E pkg \in {"d", "u"}, ann \in {a \in Anns : a.type} : \E c1 \in SeqConts(pkg), c2 \in SeqConts(pkg) :
           /\ ("chainLM" \in {c1.use, c2.use} => ann.meth)
@@ -146,12 +155,16 @@ EnterDecl ==
   /\ UNCHANGED <<prog, fi, ci, reported, diags>>
 
 Key(u) == IF "DedupByName" \in Deviations THEN TypeOf(u)[2] ELSE TypeOf(u)
+\* DedupBySpelling: the once-per-file set is keyed by the name the use is written with (an alias is another key)
+KeyC(c) == IF "DedupBySpelling" \in Deviations THEN <<Key(c.use), c.sp>> ELSE Key(c.use)
 
 \* what one visit adds: TONL02 / TONL03 for every call; TONL01 once per file and type
 VisitCodes(c) ==
   LET cs == IF c.use = "shadow" /\ "MatchByName" \in Deviations /\ prog.ann.func THEN {"TONL02"}
             ELSE IF "NoUnalias" \in Deviations /\ c.sp \in {"alias", "alias3", "chain", "ptralias", "ptrchain", "ptrofalias"} THEN {}
             ELSE IF "ExportedOnly" \in Deviations /\ c.use = "callHM" /\ prog.pkg # "d" THEN {}
+            ELSE IF "LocalUnexportedLost" \in Deviations /\ c.use = "callLower" THEN {}
+            ELSE IF "QualifierByText" \in Deviations /\ c.use = "callMpkgvar" THEN {}
             ELSE IF "GroupDocLeaks" \in Deviations /\ c.use = "litTG" /\ prog.ann.type THEN {"TONL01"}
             ELSE IF "ElidedSkipped" \in Deviations /\ c.use = "elidedTT" THEN {}
             ELSE Cands(c, prog.ann)
@@ -164,9 +177,9 @@ Visit ==
   /\ ph = "visit"
   /\ LET c == CurC
          cs == IF skip \/ ("SkipMethodNamedLikeFunc" \in Deviations /\ c.ctx = "pmethTF" /\ prog.ann.func) THEN {} ELSE VisitCodes(c)
-         newType == "TONL01" \in cs /\ Key(c.use) \notin reported
+         newType == "TONL01" \in cs /\ KeyC(c) \notin reported
      IN /\ diags' = diags \cup {<<fi, ci, code>> : code \in (cs \ {"TONL01"})} \cup (IF newType THEN {<<fi, ci, "TONL01">>} ELSE {})
-        /\ reported' = IF newType THEN reported \cup {Key(c.use)} ELSE reported
+        /\ reported' = IF newType THEN reported \cup {KeyC(c)} ELSE reported
   /\ ph' = "leave"
   /\ UNCHANGED <<prog, fi, ci, skip>>
 
